@@ -1,9 +1,14 @@
 #!/bin/sh
-# Builds the conformance harness (all binaries, both arithmetic profiles) offline from files on disk.
-set -e
-cd "$(dirname "$0")/harness"
+# Builds the conformance harness (every binary, both arithmetic profiles) offline from files on disk.
+# Each check rebuilds what it needs from /repo's current tree anyway; this only warms the cargo cache.
+cd "$(dirname "$0")/harness" || exit 1
 export CARGO_NET_OFFLINE=true
 [ -f Cargo.lock ] || cp /repo/Cargo.lock Cargo.lock
-cargo build --offline --release --bins
-cargo build --offline --profile checked --bins
+cargo build --offline --release --lib || exit 1
+cargo build --offline --profile checked --lib || exit 1
+for b in src/bin/*.rs; do
+  n=$(basename "$b" .rs)
+  cargo build --offline --release --bin "$n" || echo "warning: $n (release) did not build"
+  cargo build --offline --profile checked --bin "$n" || echo "warning: $n (checked) did not build"
+done
 echo "setup ok"
